@@ -174,7 +174,12 @@ def observe(recipe):
         return {"outcome": "err", "cls": "RecursionError"}
     except Exception as e:  # noqa
         return {"outcome": "err", "cls": err_class(e)}
-    return observe_image(img, recs, chans)
+    try:
+        return observe_image(img, recs, chans)
+    except RecursionError:
+        return {"outcome": "err", "cls": "RecursionError", "stage": "inspect"}
+    except Exception as e:  # noqa  (the document opened, but walking / flattening it raises)
+        return {"outcome": "err", "cls": err_class(e), "stage": "inspect"}
 
 
 def observe_image(img, recs, chans):
@@ -227,7 +232,7 @@ def check_property(ctx, obs, toks, describe, kinds_expected=None):
         for ch in layer:
             if ch._parent is not layer:
                 ctx.fail("C08/nesting/parent-pointer", "child's parent is not the group that lists it", describe,
-                         repr(ch._parent), repr(layer))
+                         _srepr(ch._parent), _srepr(layer))
             lo, hi = span(ch)
             if lo != expect:
                 ctx.fail("C08/nesting/children-not-contiguous-in-order",
@@ -243,7 +248,7 @@ def check_property(ctx, obs, toks, describe, kinds_expected=None):
     for l in img:
         if l._parent is not img:
             ctx.fail("C08/nesting/parent-pointer", "top-level layer's parent is not the document", describe,
-                     repr(l._parent), "the PSDImage")
+                     _srepr(l._parent), "the PSDImage")
         lo, hi = span(l)
         if lo != expect:
             ctx.fail("C08/nesting/top-level-not-contiguous-in-order", "top-level layers do not cover the records in order",
@@ -265,6 +270,13 @@ def check_property(ctx, obs, toks, describe, kinds_expected=None):
             ctx.fail(f"C08/kind/{exp}-reported-as-{l.kind}", "layer kind does not follow from its blocks", describe,
                      l.kind, exp)
         ctx.hist("kind", l.kind)
+
+
+def _srepr(x):
+    try:
+        return repr(x)
+    except Exception as e:  # noqa  (a detached object may not even print)
+        return "<%s: repr raises %s>" % (type(x).__name__, type(e).__name__)
 
 
 def role_string(toks):
@@ -290,7 +302,7 @@ def depth_outcome(roles: str) -> str:
 
 # ---- the check -------------------------------------------------------------------------------------
 def run(ctx: core.Run):
-    gen = extract_c08.gen_tree_kinds(ctx)
+    gen = ctx.regenerate(extract_c08.gen_tree_kinds)
     ctx.prove(["PsdVerif.Props.C08"])
     ctx.trusted_base += [
         "Lean 4.33 kernel; axioms allowed: propext, Classical.choice, Quot.sound (audited per theorem)",
@@ -329,6 +341,8 @@ def run(ctx: core.Run):
             for _ in range(2 if quick else 4):
                 gvs = [rng.choice(GROUP_VARIANTS) for _ in range(4)]
                 cases.append(("bracketing-mixed", recipe_from(seq, rng.getrandbits(n) if n else 0, gvs, rng.randrange(99))))
+            # records that are equal field for field (same name, geometry, blocks): identity, not equality, must decide
+            cases.append(("bracketing-twins", [dict(sp, name="twin") for sp in recipe_from(seq, 0, GROUP_VARIANTS[0], 0)]))
     ctx.extra["bracketings"] = nb
     # (b) every artboard key combination, every (sds, nsds, artboard) combination of a single record in three contexts
     for art in ART_VARIANTS:
